@@ -837,6 +837,126 @@ def pydantic_new(cx, obj, cls, name, bases, dct):
     return a.ret
 
 
+# ---- SchemaBase.Config.schema_extra: how constants appear in the exported JSON Schema (C20, C12) ------------------
+
+JsonV = z3.DeclareSort("JsonSchemaValue")
+JS_TRUE = z3.Const("json_true", JsonV)  # the JSON Schema `true`: accepts any value
+JS_OF_CONST = z3.Function("json_of_constant", ConstV, JsonV)
+
+
+class TJson:
+    def sort(self):
+        return JsonV
+
+    def wrap(self, t):
+        return JsonVal(t)
+
+    def unwrap(self, cx, v):
+        if v is True:
+            return JS_TRUE
+        if isinstance(v, JsonVal):
+            return v.t
+        if isinstance(v, ConstVal):
+            return JS_OF_CONST(v.t)
+        if isinstance(v, dict):
+            # some JSON object (a sub-schema with keywords): whatever it is, it is not the schema `true`
+            o = z3.Const(fresh_name("json_object"), JsonV)
+            cx.assume(o != JS_TRUE)
+            return o
+        raise Unsupported(f"not a JSON schema value: {v!r}")
+
+
+class JsonVal(SVal):
+    def __init__(self, t):
+        self.t = t
+
+
+class SchemaDict(SVal):
+    """the JSON Schema dict being post-processed: schema["properties"] and schema["$metador_constants"] are symbolic maps"""
+
+    def __init__(self):
+        self.props = SMap.fresh(STR, TJson(), "schema_properties")
+        self.consts = None
+        self.other_writes = []
+
+    def py_getitem(self, cx, k):
+        if k == "properties":
+            return self.props
+        if k == "$metador_constants":
+            if self.consts is None:
+                cx.py_raise("KeyError", "constants section not created")
+            return self.consts
+        raise Unsupported("schema[" + repr(k) + "]")
+
+    def py_setitem(self, cx, k, v):
+        if k == "$metador_constants" and isinstance(v, dict) and not v:
+            self.consts = SMap(STR, TJson(), name="schema_constants")
+            return
+        self.other_writes.append(k)
+
+    def py_getattr(self, cx, name):
+        if name == "ghost_props":
+            return self.props
+        if name == "ghost_consts":
+            return self.consts
+        raise Unsupported("dict attribute " + name)
+
+
+class SchemaExtra(FnSpec):
+    file = "schema/core.py"
+    qual = "SchemaBase.Config.schema_extra"
+    props = ("C20", "C12")
+
+    def init(self):
+        self.bindings["UndefVersion"] = UnwrapStub()
+        self.bindings["add_missing_field_descriptions"] = lambda cx, sch, model: cx.effect("descriptions", model)
+        self.bindings["KEY_SCHEMA_CONSTFLDS"] = "$metador_constants"
+
+        def inv(cx, env, it):
+            a = cx.ghost["sx"]
+            sd = a.schema
+            k = z3.String(fresh_name("ck"))
+            C = a.consts0
+            return [
+                ("constants-so-far-listed-unconstrained-and-recorded", z3.ForAll([k], z3.Implies(z3.Select(it.processed, k), z3.And(sd.props.has(k), sd.props.get_term(k) == JS_TRUE, sd.consts.has(k), sd.consts.get_term(k) == JS_OF_CONST(C.get_term(k)))))),
+                ("other-properties-untouched", z3.ForAll([k], z3.Implies(z3.Not(z3.Select(it.processed, k)), z3.And(sd.props.has(k) == a.props0.has(k), sd.props.get_term(k) == a.props0.get_term(k))))),
+                ("only-constants-recorded", z3.ForAll([k], z3.Implies(sd.consts.has(k), z3.Select(it.processed, k)))),
+            ]
+
+        self.loops[0] = LoopSpec(inv, modifies=["cname", "cval"], havoc_inplace=["schema.ghost_props", "schema.ghost_consts"])
+
+    def setup(self, cx):
+        MS = ClsObj("SchemaCls", name="MetadataSchema")
+        self.bindings["MetadataSchema"] = MS
+        model = ClsObj("SchemaCls", name="model")
+        model.fields["__constants__"] = SMap.fresh(STR, TConst(), "model_constants")
+        sd = SchemaDict()
+        a = A(schema=sd, model=model)
+        a.consts0 = model.fields["__constants__"].snapshot()
+        a.props0 = sd.props.snapshot()
+        cx.ghost["sx"] = a
+        return a
+
+    def ensures(self, cx, a, res):
+        sd = a.schema
+        k = z3.String(fresh_name("ek"))
+        C = a.consts0
+        has_consts = z3.Exists([k], C.has(k))
+        out = [("constants-section-iff-constants", z3.BoolVal(sd.consts is not None) == has_consts if isinstance(sd.consts, SMap) or sd.consts is None else z3.BoolVal(False), "the constants section exists exactly when the schema has constants")]
+        if sd.consts is not None:
+            out.append(("constants-listed-as-unconstrained-properties", z3.ForAll([k], z3.Implies(C.has(k), z3.And(sd.props.has(k), sd.props.get_term(k) == JS_TRUE))), "every constant is listed under properties as `true` (any value accepted): an instance of a child schema, which may override the constant, still validates against the parent's embedded schema"))
+            out.append(("constants-recorded-with-their-values", z3.ForAll([k], sd.consts.has(k) == C.has(k)) if True else None, "the constant values are recorded in the separate constants section"))
+            out.append(("recorded-values-are-the-constants", z3.ForAll([k], z3.Implies(C.has(k), sd.consts.get_term(k) == JS_OF_CONST(C.get_term(k)))), "with exactly their values"))
+        out.append(("other-properties-untouched", z3.ForAll([k], z3.Implies(z3.Not(C.has(k)), z3.And(sd.props.has(k) == a.props0.has(k), sd.props.get_term(k) == a.props0.get_term(k)))), "no other property is changed"))
+        out.append(("nothing-else-written", z3.BoolVal(not sd.other_writes), "no other top-level key is written"))
+        return out
+
+
+class UnwrapStub(SVal):
+    def meth__unwrap(self, cx, m):
+        return None  # the class is not a version-less view (the other case substitutes the original class first)
+
+
 def build_c12(reg):
     reg.set_class_home("SchemaMagicInstance", "schema/core.py", "SchemaMagic")
     reg.set_class_home("DynEncMetaInstance", "schema/encoder.py", "DynJsonEncoderMetaMixin")
@@ -853,6 +973,12 @@ def build_c12(reg):
     for s in specs:
         reg.add(s)
     return specs
+
+
+def build_c20_schema(reg):
+    s = SchemaExtra()
+    reg.add(s)
+    return [s]
 
 
 def build_c13(reg):
